@@ -196,6 +196,9 @@ UTChanged(old, new) ==
     \/ old.ut # new.ut
     \/ ((old.ut # <<>> \/ new.ut # <<>>) /\ old.uta # new.uta)
 
+(* Meta.db_table_comment, where a model record carries one *)
+Comment(ms) == IF "comment" \in DOMAIN ms THEN ms.comment ELSE None
+
 NoData(fields) == [fn \in DOMAIN fields |->
                      [ftype |-> fields[fn].ftype, attrs |-> fields[fn].attrs,
                       rel |-> fields[fn].rel]]
@@ -203,6 +206,7 @@ ModelEq(a, b) == /\ a.table = b.table
                  /\ NoData(a.fields) = NoData(b.fields)
                  /\ SeqSet(a.idx) = SeqSet(b.idx)
                  /\ SeqSet(a.cons) = SeqSet(b.cons)
+                 /\ Comment(a) = Comment(b)
                  /\ ~UTChanged(b, a)
 
 SigEq(a, b) == /\ DOMAIN a = DOMAIN b
@@ -222,6 +226,7 @@ ModelDiffEmpty(a, b) ==
     /\ ~UTChanged(a, b)
     /\ a.idx = b.idx
     /\ a.cons = b.cons
+    /\ Comment(a) = Comment(b)
 DiffEmpty(a, b) == /\ DOMAIN a = DOMAIN b
                    /\ \A mn \in DOMAIN a : ModelDiffEmpty(a[mn], b[mn])
 
